@@ -6,6 +6,7 @@ to several functions (maps with -1), NaN failure masks incl. masks that empty th
 and a stratum of invalid windows that must be rejected before any evaluator call."""
 from __future__ import annotations
 
+import copy
 import random
 
 import numpy as np
@@ -34,7 +35,7 @@ COMPONENTS = {
     "real": ["DefaultRealizationFilter (sort-*)", "EnsembleEvaluator weight-row assignment", "config validation", "plan steps"],
     "stub": ["SimEvaluator", "sim/scripted optimizer", "sim/inject sampler"],
 }
-PROBES = ["ranking_entries_checked", "rows_compared", "window_emptied", "invalid_window_rejected", "some_failed", "multi_objective_key",
+PROBES = ["direct_evaluator", "direct_window_emptied", "direct_window_not_empty", "exact_ties_ranked_by_index", "ranking_entries_checked", "rows_compared", "window_emptied", "invalid_window_rejected", "some_failed", "multi_objective_key",
           "two_filters", "constraint_flavour", "objective_flavour", "gradient_result_rows", "zero_configured_weight_in_window"]
 
 
@@ -44,7 +45,12 @@ def _windows(n: int):
 
 def generate(seed: int, index: int, tier: str) -> dict:
     rng = random.Random(seed)
+    if index % 20 == 19:
+        return _direct(rng)
     nr = rng.randint(1, 6) if index % 3 else rng.randint(1, 8)
+    large = index % 25 == 23
+    if large:
+        nr = rng.randint(17, 40)  # beyond the sizes NumPy sorts by insertion: ties meet an unstable sort here
     nc = rng.randint(0, 2)
     kinds = ["sort-objective"] + (["sort-constraint"] if nc else [])
     scn = gen.base_scenario(rng, PROP, nr=nr, nc=nc, filters=True, filter_kinds=kinds, nv_max=3, npert_max=2,
@@ -69,15 +75,120 @@ def generate(seed: int, index: int, tier: str) -> dict:
         ws = _windows(nr)
         first, last = ws[(index // 5) % len(ws)]
         filters[0]["options"]["first"], filters[0]["options"]["last"] = first, last
-    if index % 5 in (1, 2):
+    if index % 5 in (1, 2) or large:
         gen.add_nan_faults(rng, scn, rate=1.0, max_faults=5)
         scn["stratum"] = "nan-faults"
     else:
         scn["stratum"] = "plain"
+    if nr >= 3 and rng.random() < (0.7 if large else 0.25):
+        # exact ties in the sort key: ranked by realization index, with or without failed realizations
+        gen.add_ties(rng, scn)
+    if large:
+        scn["stratum"] = "large-ensemble"
     return scn
 
 
+def _direct(rng: random.Random) -> dict:
+    """An ensemble whose sort window can only select realizations without weight (zero configured weight, or failed),
+    driven through EnsembleEvaluator.calculate directly: functions first, then the gradient alone at the same point
+    (what an algorithm with split evaluations does) or both at once."""
+    nr = rng.randint(2, 5)
+    scn = gen.base_scenario(rng, PROP, nr=nr, nc=0, no_max=2, filters=True, filter_kinds=["sort-objective"], filter_count=1,
+                            nv_max=3, npert_max=3, stddev=False, transforms=False, mask=False, linear=False, inject_p=0.0,
+                            zero_real_weights=False, rms=1, pms=None)
+    cfg = scn["configs"][0]
+    flt = cfg["realization_filters"][0]
+    flt["options"]["sort"] = [0]
+    no = len(scn["world"]["obj_ids"])
+    cfg["objectives"]["realization_filters"] = [0] * no
+    variant = rng.choice(["zero-weights", "failed"])
+    first = rng.randint(1, nr - 1)
+    flt["options"]["first"], flt["options"]["last"] = first, nr - 1
+    scn["faults"] = []
+    if variant == "zero-weights":
+        # affine world, positive weight only on one realization; which rank it has at the point is not known here, the
+        # oracle decides from the values whether the window is empty
+        w = [0.0] * nr
+        w[rng.randrange(nr)] = 1.0
+        cfg["realizations"]["weights"] = w
+    else:
+        # so many realizations fail that fewer than first + 1 remain: the window over the successful ones is empty
+        for r in rng.sample(range(nr), nr - first):
+            scn["faults"].append({"kind": "nan", "eval": None, "real": r, "pert": -1, "col": None})
+    cfg["realizations"]["realization_min_success"] = 1
+    scn["entry"] = "direct"
+    scn["order"] = rng.choice(["split", "split", "both"])
+    scn["stratum"] = "direct-evaluator"
+    return scn
+
+
+def _execute_direct(scn: dict) -> dict:
+    import warnings
+
+    from ropt.config.enopt import EnOptConfig
+    from ropt.ensemble_evaluator import EnsembleEvaluator
+
+    from sim import backend
+    from sim.evaluator import SimEvaluator
+    from sim.seeds import digest_bytes
+    from sim.world import World
+
+    warnings.simplefilter("ignore")
+    viol: list[dict] = []
+    probes = {"direct_evaluator": 1}
+    ev = SimEvaluator(World(scn["world"]), scn.get("faults"), scn.get("mode"))
+    cfgd = copy.deepcopy(scn["configs"][0])
+    cfgd.pop("optimizer", None)
+    config = EnOptConfig.model_validate(cfgd)
+    ee = EnsembleEvaluator(config, None, ev, backend.make_plugin_manager())
+    x = np.asarray(config.variables.initial_values, dtype=np.float64)
+    if scn["order"] == "split":
+        fres = ee.calculate(x, compute_functions=True, compute_gradients=False)
+        gres = ee.calculate(x, compute_functions=False, compute_gradients=True)
+        f, g = fres[0], gres[0]
+    else:
+        res = ee.calculate(x, compute_functions=True, compute_gradients=True)
+        f, g = res[0], res[1]
+    call = ev.calls[0]
+    nr = len(scn["world"]["real_ids"])
+    fobj = np.asarray(call.obj)[:nr]  # (a combined request lists the unperturbed rows first)
+    failed = np.any(np.isnan(fobj), axis=1)
+    cw = model.realization_weights(scn["configs"][0])
+    flt = scn["configs"][0]["realization_filters"][0]
+    vals = oracles.sort_key_values(scn["configs"][0], flt, fobj, None)
+    ref = model.sort_window_weights(vals, failed, int(flt["options"]["first"]), int(flt["options"]["last"]), cw)
+    compared = 0
+    if not oracles.near_ties(vals[~failed]):
+        compared = 1
+        if not np.any(ref > 0):
+            probes["direct_window_emptied"] = 1
+            if f.functions is not None:
+                viol.append({"clause": "value-produced-from-empty-window", "sig": {"entry": "direct"},
+                             "detail": f"direct functions request: window {flt['options']} selects no positive weight but functions were reported"})
+            if g.gradients is not None:
+                viol.append({"clause": "gradient-produced-from-empty-window", "sig": {"entry": "direct", "order": scn["order"]},
+                             "detail": f"direct {scn['order']} request: window {flt['options']} selects no realization with positive weight "
+                                       f"(configured {np.round(cw, 4).tolist()}, failed {failed.tolist()}) but a gradient was reported: "
+                                       f"{np.asarray(g.gradients.objectives).tolist()}"})
+        else:
+            probes["direct_window_not_empty"] = 1
+    return {
+        "violations": _dedupe(viol),
+        "nontrivial": compared > 0,
+        "key": oracles.scenario_key(scn, ("direct", scn["order"], flt["options"].get("first"))),
+        "probes": probes,
+        "fired": dict(ev.fired),
+        "digest": digest_bytes(harness.result_bytes(f), harness.result_bytes(g)),
+        "evals": len(ev.calls),
+        "events": 0,
+        "stratum": scn.get("stratum"),
+        "summary": {"functions": f.functions is not None, "gradients": g.gradients is not None, "order": scn["order"]},
+    }
+
+
 def execute(scn: dict) -> dict:
+    if scn.get("entry") == "direct":
+        return _execute_direct(scn)
     ctx = harness.run_scenario(scn)
     viol: list[dict] = []
     probes: dict[str, int] = {}
@@ -138,8 +249,9 @@ def execute(scn: dict) -> dict:
                     probe("multi_objective_key")
             else:
                 probe("constraint_flavour")
-            succ = np.sort(vals[~failed])
-            ties = succ.size > 1 and np.min(np.diff(succ)) < 1e-9
+            ties = oracles.near_ties(vals[~failed])
+            if not ties and np.unique(vals[~failed]).size < np.count_nonzero(~failed):
+                probe("exact_ties_ranked_by_index")
             ref = model.sort_window_weights(vals, failed, int(flt["options"]["first"]), int(flt["options"]["last"]), cw)
             rows = oracles.filter_rows(ln, fidx)
             mapped = any(model.filter_of(cfg, k, j) == fidx for k, nn in (("o", model.cfg_counts(cfg)["no"]), ("c", model.cfg_counts(cfg)["nc"])) for j in range(nn))
